@@ -198,8 +198,10 @@ def bvn_cdf(x, y, mu_x=0.0, mu_y=0.0, sigma_xx=1.0, sigma_yy=1.0, sigma_xy=0.0):
                 sp1 = 1.0 + np.multiply(np.multiply(cdim2, dim1xs), 1.0 + np.multiply(rhk16dim2, dim1xs))
                 ep1 = np.divide(np.exp(np.divide(-np.multiply(hkdim2, (1.0 - dim1rs)),
                                                  2.0 * (1.0 + dim1rs))), dim1rs)
+                # terms with asr1 <= -100 are dropped; they must be masked out, not multiplied by
+                # zero, because ep1 overflows to inf there and inf * 0 is nan
                 bvn = bvn + np.sum(np.multiply(np.multiply(np.multiply(sopmr, dim1w), np.exp(np.multiply(asr1, ind1))),
-                                               np.multiply(ep1, ind1) - np.multiply(sp1, ind1)), axis=1)
+                                               np.where(ind1, ep1 - sp1, 0.0)), axis=1)
             bvn = -bvn / (2.0 * np.pi)
 
         if r > 0:
